@@ -241,9 +241,9 @@ func vfFoldStr(m map[string]bool) string {
 
 func vfC05Scenarios(thorough bool) []*vfGWScenario {
 	var out []*vfGWScenario
-	d := 4
+	d := 5
 	if thorough {
-		d = 6
+		d = 7
 	}
 	mk := func(name, router string, q int, extra map[string]string, prefix, alphabet []string) {
 		proto := "fs"
@@ -264,7 +264,7 @@ func vfC05Scenarios(thorough bool) []*vfGWScenario {
 	for _, router := range []string{"flood", "gossip"} {
 		mk(router+"-yield", router, 0, nil, []string{"join:t", "conn:a", "sub:a:t"}, []string{"holdy:inbound-unregistered:a", "rely:inbound-unregistered:a", "holdy:inbound-registered:a", "rely:inbound-registered:a",
 			"holdy:outbound-opened:a", "rely:outbound-opened:a", "inreset:a", "inopen:a", "sub:a:t", "disc:a", "conn:a", "outreset:a"})
-		out[len(out)-1].Depth = d + 2 // the shortest interesting interleavings need arm, close, reopen, re-announce, release
+		out[len(out)-1].Depth = d + 1 // the shortest interesting interleavings need arm, close, reopen, re-announce, release
 	}
 	mk("gossip-fanoutonly", "gossip", 0, map[string]string{"fanout_only": "t"}, []string{"conn:a"}, []string{"join:t", "leave:t", "relay:t", "join:u", "leave:u", "conn:b", "disc:a", "lpub:t:p1", "hb"})
 	return out
